@@ -10,6 +10,7 @@
 package main
 
 import (
+	"errors"
 	"fmt"
 	"io"
 	"math/rand"
@@ -196,8 +197,13 @@ type recMap struct {
 
 var _ maps.MapWithExistsCheck = (*recMap)(nil)
 
+var errInjected = errors.New("verif: injected map write failure")
+
 func (m *recMap) Update(k, v []byte) error {
 	m.d.beforeWrite()
+	if m.d.failNow() {
+		return errInjected
+	}
 	err := m.Map.Update(k, v)
 	m.d.afterWrite(m.kind, "upd", k, v, err)
 	return err
@@ -205,6 +211,9 @@ func (m *recMap) Update(k, v []byte) error {
 
 func (m *recMap) Delete(k []byte) error {
 	m.d.beforeWrite()
+	if m.d.failNow() {
+		return errInjected
+	}
 	err := m.Map.Delete(k)
 	m.d.afterWrite(m.kind, "del", k, nil, err)
 	return err
@@ -231,6 +240,20 @@ type drv struct {
 	crashAt  int // -1: never; otherwise the write with index crashAt (0-based) panics before executing
 	inApply  bool
 	nsyncers int
+	// failure injection (random leg only): write attempt failAt of the current Apply returns an error
+	// and leaves the map untouched; failRest makes every later attempt of that Apply fail too
+	attempts int
+	failAt   int
+	failRest bool
+}
+
+func (d *drv) failNow() bool {
+	if !d.inApply || d.failAt < 0 {
+		return false
+	}
+	i := d.attempts
+	d.attempts++
+	return i == d.failAt || (d.failRest && i > d.failAt)
 }
 
 func feRec(k, v []byte) map[string]any {
@@ -307,6 +330,7 @@ func (d *drv) reset(t int) {
 	d.aff = mock.NewMockMap(nat.AffinityMapParameters)
 	d.syncer = nil
 	d.crashAt = -1
+	d.failAt = -1
 	d.log.Reset(t, map[string]any{"npips": ipStrs(d.npips)})
 }
 
@@ -328,6 +352,7 @@ func (d *drv) apply(ds []svcDesc, crashAt int) {
 	st := buildState(ds)
 	desired := stateJSON(st)
 	d.writes = 0
+	d.attempts = 0
 	d.crashAt = crashAt
 	crashed := false
 	var err error
@@ -346,6 +371,7 @@ func (d *drv) apply(ds []svcDesc, crashAt int) {
 		err = d.syncer.Apply(st)
 	}()
 	d.crashAt = -1
+	d.failAt = -1
 	es := ""
 	if err != nil {
 		es = err.Error()
@@ -410,7 +436,18 @@ func svcFromBeh(m map[string]any) svcDesc {
 	return d
 }
 
+var (
+	hostIP  = net.IPv4(192, 168, 0, 1)
+	podNPIP = net.IPv4(255, 255, 255, 255) // the "any local address" node-port IP kube-proxy.go always adds
+)
+
 func (d *drv) runBehaviour(t int, beh []map[string]any) {
+	// VERIF_NPIPS=1: the generator's model has a single node-port IP; with the same number here its crash
+	// points k range over all writes of the real sync
+	d.npips = []net.IP{hostIP, podNPIP}
+	if os.Getenv("VERIF_NPIPS") == "1" {
+		d.npips = []net.IP{hostIP}
+	}
 	d.reset(t)
 	for _, op := range beh {
 		switch tracelog.Str(op["op"]) {
@@ -440,6 +477,10 @@ func (d *drv) runBehaviour(t int, beh []map[string]any) {
 // ---- seeded random histories over a larger universe --------------------------------------------------
 
 func (d *drv) runRandom(t int, r *rand.Rand) {
+	d.npips = []net.IP{hostIP, podNPIP}
+	if r.Intn(4) == 0 {
+		d.npips = []net.IP{hostIP}
+	}
 	d.reset(t)
 	nsvc := 2 + r.Intn(3)
 	neps := 2 + r.Intn(4)
@@ -560,10 +601,17 @@ func (d *drv) runRandom(t int, r *rand.Rand) {
 				ds = append(ds, c)
 			}
 		}
-		switch r.Intn(6) {
+		switch r.Intn(7) {
 		case 0:
 			d.apply(ds, r.Intn(12))
 			d.restart()
+		case 2:
+			// a map write fails (once, or from then on) and Apply reports it or retries it; the same
+			// Syncer then syncs again
+			d.failAt = r.Intn(10)
+			d.failRest = r.Intn(2) == 0
+			d.apply(ds, -1)
+			d.apply(ds, -1)
 		case 1:
 			d.apply(ds, -1)
 			d.restart()
@@ -583,7 +631,7 @@ func main() {
 		fmt.Fprintln(os.Stderr, err)
 		os.Exit(2)
 	}
-	d := &drv{log: lg, npips: []net.IP{net.IPv4(192, 168, 0, 1), net.IPv4(255, 255, 255, 255)}, crashAt: -1}
+	d := &drv{log: lg, crashAt: -1, failAt: -1}
 	behs, err := tracelog.LoadBehaviours(env.BehPath)
 	if err != nil {
 		fmt.Fprintln(os.Stderr, err)
